@@ -255,6 +255,16 @@ def check_operators(ctx, rng, n):
         except Exception as err:  # noqa: BLE001
             ctx.fail({"kind": "operators", "a": str(a), "b": str(b)}, f"operator spelling raised {type(err).__name__}: {str(err)[:120]}", ["operators", "raises"])
             continue
+        # a numpy *scalar* on the left: numpy's own operator runs first and hands the call to the ufunc protocol
+        for label, f, g in (("numpy scalar / poly", lambda: numpy.float64(4.0) / b, lambda: numpoly.poly_divide(4.0, b)),
+                            ("numpy scalar % poly", lambda: numpy.float64(4.0) % b, lambda: numpoly.poly_remainder(4.0, b)),
+                            ("divmod(numpy scalar, poly)", lambda: divmod(numpy.int64(3), b)[1], lambda: numpoly.poly_divmod(3, b)[1])):
+            try:
+                x, y = f(), g()
+                if den_of_struct(any_to_struct(x)) != den_of_struct(any_to_struct(y)):
+                    ctx.fail({"kind": "operators", "b": str(b)}, f"{label} differs from the corresponding poly_* function", ["operators", "numpy-scalar-left", "value"])
+            except Exception as err:  # noqa: BLE001
+                ctx.fail({"kind": "operators", "b": str(b)}, f"{label} raised {type(err).__name__}: {str(err)[:100]} while the poly_* function divides", ["operators", "numpy-scalar-left", "raises"])
         for label, x, y in pairs:
             sx, sy = any_to_struct(x), any_to_struct(y)
             if sx["shape"] != sy["shape"] or den_of_struct(sx) != den_of_struct(sy):
